@@ -467,3 +467,137 @@ def rdm_allsizes(kind="uhf"):
         o["replayed"] = bool(dev > 1e-10)
         o["witness"]["native"] = dict(max_abs_deviation=dev)
     return [o]
+
+
+def noci_wick(what="energy"):
+    """C02.en.allsizes.noci / C03.fb.allsizes.noci (PROOF: all norb, n_up, n_dn, nchol and all numbers of determinants):
+    the real _build_measurement_intermediates + _calc_energy / _calc_force_bias equal
+        sum_k c_k O_k W(Gf^k) / sum_k c_k O_k,   Gf^k_s = D^k_s G^k_s,   W = Wick form of the energy / force bias,
+    with the per-determinant half Green's functions G^k_s and overlaps O_k as fresh symbols (their contracts: green.noci, ov.*); REAL determinants and
+    coefficients as the class documents; the quotient is compared by cross-multiplication."""
+    t0 = time.time()
+    H.setup_repo()
+    import jax
+    import jax.numpy as jnp
+    from ad_afqmc import wavefunctions as wf
+    prop = "C02.en" if what == "energy" else "C03.fb"
+    name = f"{prop}.allsizes.noci"
+    fns = [f"{WF}.noci._build_measurement_intermediates", f"{WF}.noci._calc_energy" if what == "energy" else f"{WF}.noci._calc_force_bias"]
+    results = []
+    for sizes in (dict(n=5, a=2, b=3, g=7, d=11), dict(n=7, a=3, b=2, g=5, d=13)):
+        n, a, b, g, d = (sizes[k] for k in "nabgd")
+        trial = wf.noci(n, (a, b), d)
+        ham = dict(chol=jnp.zeros((g, n * n)), h0=jnp.zeros(()), h1=jnp.zeros((2, n, n)))
+        wave = dict(ci_coeffs_dets=[jnp.zeros((d,)), [jnp.zeros((d, n, a)), jnp.zeros((d, n, b))]])
+        wu, wd = jnp.zeros((n, a)) + 0j, jnp.zeros((n, b)) + 0j
+        meth = trial._calc_energy if what == "energy" else trial._calc_force_bias
+
+        def f(hm, wv, x, y):
+            hm = trial._build_measurement_intermediates(hm, wv)
+            return meth(x, y, hm, wv)
+        try:
+            closed = jax.make_jaxpr(f)(ham, wave, wu, wd)
+        except Exception as e:   # noqa
+            return [ob(name, REFUTED, kind="proof", backend="jax-trace", functions=fns, wall=time.time() - t0, replayed=True, witness_class="raises",
+                       detail=f"tracing at {sizes} raises {type(e).__name__}: {str(e)[:200]}", witness=dict(error=repr(e)[:300]))]
+        T.SYMMETRIC.update({"h1_up": (0, 1), "h1_dn": (0, 1), "L": (1, 2)})
+        T.REAL.update({"Du", "Dd", "ci"})
+        A = dict(L=T.atom("L", ["g", "n", "n"], composite=[[0], [1, 2]]), h0=T.atom("h0", []), h1=T.Stack([T.atom("h1_up", ["n", "n"]), T.atom("h1_dn", ["n", "n"])]),
+                 ci=T.atom("ci", ["d"]), Du=T.atom("Du", ["d", "n", "a"]), Dd=T.atom("Dd", ["d", "n", "b"]), wu=T.atom("wu", ["n", "a"]), wd=T.atom("wd", ["n", "b"]),
+                 Gu=T.atom("Gu", ["d", "a", "n"]), Gd=T.atom("Gd", ["d", "b", "n"]), ok=T.atom("ok", ["d"]))
+        seen = dict(green=0, ov=0)
+
+        def h_green(it, e, ins):
+            if len(e.outvars) != 2 or len(e.outvars[0].aval.shape) != 3:
+                return None
+            seen["green"] += 1
+            return [A["Gu"], A["Gd"]]
+
+        def h_ov(it, e, ins):
+            if len(e.outvars) != 1 or tuple(e.outvars[0].aval.shape) != (d,):
+                return None
+            seen["ov"] += 1
+            return [A["ok"]]
+
+        def h_trace(it, e, ins):
+            x = ins[0]
+            if not isinstance(x, T.TT) or len(e.outvars) != 1 or len(e.outvars[0].aval.shape) != len(x.axes) - 2:
+                return None
+            return [T.trace(x, len(x.axes) - 2, len(x.axes) - 1)]
+        it = T.Interp(sizes, intercept={"_calc_green_single_det": h_green, "_calc_overlap_single_det": h_ov, "trace": h_trace})
+        try:
+            val, = it.run(closed.jaxpr, closed.consts, [A["L"], A["h0"], A["h1"], A["ci"], A["Du"], A["Dd"], A["wu"], A["wd"]])
+        except Unsupported as e:
+            return [ob(name, UNDECIDED, kind="proof", backend="tensor-normal-form", detail=f"Unsupported: {e}", functions=fns, wall=time.time() - t0)]
+        if seen["green"] != 1 or seen["ov"] != 1:
+            return [ob(name, UNDECIDED, kind="proof", backend="tensor-normal-form", detail=f"callees seen {seen}", functions=fns)]
+        # spec: per-determinant Wick forms weighted by c_k O_k
+        Gf = [T.ein("kpi,kiq->kpq", A["Du"], A["Gu"]), T.ein("kpi,kiq->kpq", A["Dd"], A["Gd"])]
+        L = A["L"]
+        X = [T.ein("gpq,kpq->kg", L, Gf[s]) for s in range(2)]
+        Xs = T.add(X[0], X[1])
+        wgt = T.ein("k,k->k", A["ci"], A["ok"])
+        den = T.ein("k->", wgt)
+        if what == "fb":
+            num = T.ein("k,kg->g", wgt, Xs)
+        else:
+            e1 = T.add(T.ein("pq,kpq->k", A["h1"][0], Gf[0]), T.ein("pq,kpq->k", A["h1"][1], Gf[1]))
+            coul = T.ein("kg,kg->k", Xs, Xs)
+            exc = T.add(T.ein("gpq,grt,kpt,krq->k", L, L, Gf[0], Gf[0]), T.ein("gpq,grt,kpt,krq->k", L, L, Gf[1], Gf[1]))
+            Ek = T.add(T.add(_bcast_scalar(A["h0"], "d"), e1), T.scale(T.add(coul, exc, -1), Fraction(1, 2)))
+            num = T.ein("k,k->", wgt, Ek)
+        want = T.Frac(num, den)
+        results.append((val, want, dict(it.seen)))
+    (v1, w1, s1), (v2, w2, s2) = results
+    out = []
+
+    def desc(v):
+        return (T.describe(v.num), T.describe(v.den)) if isinstance(v, T.Frac) else T.describe(v)
+    uniform = desc(v1) == desc(v2) and s1 == s2
+    out.append(ob(name + ".uniform", DISCHARGED if uniform else UNDECIDED, kind="proof", backend="tensor-normal-form", functions=fns, wall=time.time() - t0,
+                  detail=f"same traced program and normal form at two size sets (norb, n_up, n_dn, nchol, ndets) = (5,2,3,7,11), (7,3,2,5,13); primitives {s1}"))
+    ok = T.frac_equal(v1, w1)
+    o = ob(name, DISCHARGED if ok else REFUTED, kind="proof", backend="tensor-normal-form", functions=fns, wall=time.time() - t0,
+           detail=(f"{what} of the real noci code == sum_k c_k O_k W(D^k G^k) / sum_k c_k O_k (cross-multiplied normal forms agree), all sizes incl. the number of determinants, all values") if ok else
+                  f"normal forms differ: code {str(desc(v1))[:500]} vs spec {str(desc(w1))[:500]}",
+           witness=None if ok else dict(got=str(desc(v1))[:800], want=str(desc(w1))[:800]), witness_class="" if ok else "normal-form")
+    if not ok:
+        _replay_noci(o, what)
+    out.append(o)
+    return out
+
+
+def _bcast_scalar(x, sym):
+    """scalar tensor broadcast along a new axis of symbolic size"""
+    return T.TT([((T.fresh(), sym),)], x.terms)
+
+
+def _replay_noci(o, what):
+    try:
+        import jax.numpy as jnp
+        from ad_afqmc import wavefunctions as wf
+        rng = np.random.default_rng(14)
+        n, a, b, g, d = 4, 2, 1, 2, 3
+        trial = wf.noci(n, (a, b), d)
+        h1 = rng.normal(size=(2, n, n)); h1 = h1 + h1.transpose(0, 2, 1)
+        L = rng.normal(size=(g, n, n)); L = L + L.transpose(0, 2, 1)
+        ci = rng.normal(size=d)
+        Du, Dd = rng.normal(size=(d, n, a)), rng.normal(size=(d, n, b))
+        w = [rng.normal(size=(n, a)) + 1j * rng.normal(size=(n, a)), rng.normal(size=(n, b)) + 1j * rng.normal(size=(n, b))]
+        ham = dict(h0=0.3, h1=jnp.asarray(h1), chol=jnp.asarray(L.reshape(g, -1)))
+        wave = dict(ci_coeffs_dets=[jnp.asarray(ci), [jnp.asarray(Du), jnp.asarray(Dd)]])
+        hm = trial._build_measurement_intermediates(dict(ham), wave)
+        got = np.asarray((trial._calc_energy if what == "energy" else trial._calc_force_bias)(jnp.asarray(w[0]), jnp.asarray(w[1]), hm, wave))
+        num, den = 0, 0
+        for k in range(d):
+            D = [Du[k], Dd[k]]
+            O = np.linalg.det(D[0].T @ w[0]) * np.linalg.det(D[1].T @ w[1])
+            Gf = [(w[s] @ np.linalg.inv(D[s].T @ w[s]) @ D[s].T).T for s in range(2)]
+            X = sum(np.einsum("gpq,pq->g", L, Gf[s]) for s in range(2))
+            W = X if what == "fb" else 0.3 + sum(np.sum(h1[s] * Gf[s]) for s in range(2)) + 0.5 * (np.sum(X * X) - sum(np.einsum("gpq,grt,pt,rq->", L, L, Gf[s], Gf[s]) for s in range(2)))
+            num, den = num + ci[k] * O * W, den + ci[k] * O
+        dev = float(np.max(np.abs(got - num / den)))
+        o["replayed"] = bool(dev > 1e-9)
+        o["witness"] = dict(o.get("witness") or {}, native=dict(norb=n, nelec=(a, b), nchol=g, ndets=d, max_abs_deviation=dev))
+    except Exception as e:   # noqa
+        o["witness"] = dict(o.get("witness") or {}, native_error=repr(e)[:300])
